@@ -1,5 +1,7 @@
-(* Extraction for C12: the verified tree checker and the abstract hyperedge operations. *)
+(* Extraction for C12: the verified tree checker, the abstract hyperedge operations and the segment-level operations
+   of the HyperedgeTree recorded by hook H2. *)
 Require Extraction.
 Require Import ExtrOcamlBasic.
-From Adapt Require Import Graph.UnionFind Graph.Trees Avoid.HyperTreeModel.
-Extraction "c12_model.ml" is_tree_with_leaves connectedb acyclicb leavesb leaves kruskal run_hops hop_ok.
+From Adapt Require Import Graph.UnionFind Graph.Trees Avoid.HyperTreeModel Avoid.HyperSegModel.
+Extraction "c12_model.ml" is_tree_with_leaves connectedb acyclicb leavesb leaves kruskal run_hops hop_ok
+  is_treeb deg comp_uf uf_same sop_graph sop_safe sop_leaves apply_sop run_sops smooth.
